@@ -17,6 +17,10 @@ def pmsOp (op : String) (j : Json) : Except String Json := do
     let n ← jNat (← fld j "n"); let r ← jRat (← fld j "r"); let f ← jRat (← fld j "f")
     let loads ← jRats (← fld j "loads")
     return natsJ (loads.map fun L => equalSizeCount n r f L)
+  | "pms.bus_load" =>
+    let c ← jRat (← fld j "consumers")
+    let ps ← jRats (← fld j "pti_power"); let ms ← jRats (← fld j "pti_mode")
+    return ratJ (busLoad c (ps.zip ms))
   | _ => throw s!"unknown op {op}"
 
 end Driver
